@@ -355,11 +355,15 @@ pub struct TreeCfg {
     pub collect_flat: bool,
     /// wall-clock cap for one exploration (a cap that is hit is reported, never a verdict)
     pub deadline: Option<std::time::Instant>,
+    /// dyadic tail levels per value depth for full-word lattices (missing entry = all)
+    pub tail_levels: Vec<u32>,
+    /// dyadic tail bits of macro-atom alphabets per value depth (missing entry = 24)
+    pub macro_tail_bits: Vec<u32>,
 }
 
 impl Default for TreeCfg {
     fn default() -> Self {
-        TreeCfg { lattice: vec![1 << 12, 1 << 9, 1 << 5, 8, 4], macro_cells: vec![1 << 10, 1 << 8, 1 << 5, 8, 4], tail_bits: 40, tail_points: 2, restart_probes: 10, sig_probes: 4, max_depth: 24, scan_points: 16, max_classes: 4096, exec_budget: 2_000_000_000, collect_flat: false, deadline: None }
+        TreeCfg { lattice: vec![1 << 12, 1 << 9, 1 << 5, 8, 4], macro_cells: vec![1 << 10, 1 << 8, 1 << 5, 8, 4], tail_bits: 40, tail_points: 2, restart_probes: 10, sig_probes: 4, max_depth: 24, scan_points: 16, max_classes: 4096, exec_budget: 2_000_000_000, collect_flat: false, deadline: None, tail_levels: vec![], macro_tail_bits: vec![] }
     }
 }
 
@@ -394,13 +398,13 @@ pub struct MacroAlphabets {
     pub flat: HashMap<u8, Vec<(f64, f64, Vec<u64>)>>,
     /// per primitive: (checkpoint value, err) sorted by value
     pub eps: HashMap<u8, Vec<(f64, f64)>>,
-    pub cache: HashMap<(u8, u32), std::sync::Arc<Vec<MacroAtom>>>,
+    pub cache: HashMap<(u8, u32, u32), std::sync::Arc<Vec<MacroAtom>>>,
 }
 
 impl MacroAlphabets {
     /// cut the flattened atom list into `m` equal-mass cells plus dyadic tail cells
     pub fn alphabet(&mut self, prim: u8, m: u32, tail_bits: u32) -> Option<std::sync::Arc<Vec<MacroAtom>>> {
-        if let Some(a) = self.cache.get(&(prim, m)) {
+        if let Some(a) = self.cache.get(&(prim, m, tail_bits)) {
             return Some(a.clone());
         }
         let flat = self.flat.get(&prim)?;
@@ -470,7 +474,7 @@ impl MacroAlphabets {
             i += 1;
         }
         let arc = std::sync::Arc::new(out);
-        self.cache.insert((prim, m as u32), arc.clone());
+        self.cache.insert((prim, m as u32, tail_bits), arc.clone());
         Some(arc)
     }
 }
@@ -504,6 +508,7 @@ pub struct Counters {
     pub budget_hit: bool,
     pub amono_violations: u64,
     pub comb_nodes: u64,
+    pub pruned: u64,
 }
 
 struct MemoEntry {
@@ -541,13 +546,17 @@ pub struct Explorer<'a> {
     pub bad_leaves: Vec<BadLeaf>,
     pub boundary_scripts: Vec<Vec<u64>>,
     pub sample_scripts: Vec<(Vec<u64>, String)>,
-    alpha_cache: HashMap<(u8, u32), Option<std::sync::Arc<Vec<MacroAtom>>>>,
+    alpha_cache: HashMap<(u8, u32, u32), Option<std::sync::Arc<Vec<MacroAtom>>>>,
     memo_entries: usize,
     restart_cache: HashMap<u64, (u32, i32)>,
     /// number of leaf executions per bin (resolution of the tails)
     pub leaf_bins: Vec<u32>,
     /// witnesses of the most recently explored `More` node: (signature, prefix length, witnesses)
     last_wit: Option<(u64, usize, Vec<(Vec<u64>, [Probe; 2])>, Vec<(Vec<u64>, Probe)>)>,
+    /// probability mass of the path from the root to the node being expanded
+    cur_mass: f64,
+    /// reach[d]: mass of the paths on which a value-producing expansion with d value levels above it takes place
+    pub reach: Vec<f64>,
 }
 
 #[derive(Clone, Debug)]
@@ -583,7 +592,7 @@ const FILL: u64 = 0x400; // low 11 bits used when they are irrelevant
 
 impl<'a> Explorer<'a> {
     pub fn new(s: &'a dyn Sampler, grid: &'a Grid, cfg: TreeCfg, macros: Option<&'a std::sync::Mutex<MacroAlphabets>>) -> Self {
-        Explorer { s, grid, cfg, macros, cnt: Counters::default(), memo: HashMap::new(), collectors: vec![], bad_leaves: vec![], boundary_scripts: vec![], sample_scripts: vec![], alpha_cache: HashMap::new(), memo_entries: 0, restart_cache: HashMap::new(), leaf_bins: vec![0; grid.k() + 1], last_wit: None }
+        Explorer { s, grid, cfg, macros, cnt: Counters::default(), memo: HashMap::new(), collectors: vec![], bad_leaves: vec![], boundary_scripts: vec![], sample_scripts: vec![], alpha_cache: HashMap::new(), memo_entries: 0, restart_cache: HashMap::new(), leaf_bins: vec![0; grid.k() + 1], last_wit: None, cur_mass: 1.0, reach: vec![0.0; 12] }
     }
 
     #[inline]
@@ -832,6 +841,9 @@ impl<'a> Explorer<'a> {
         }
         // memo lookup: same future signature, confirmed by replaying the witnesses of the stored subtree
         if let Some(r) = self.memo_lookup(sig, p, path) {
+            for d in 0..r.vlevels as usize {
+                self.note_reach(vdepth + d);
+            }
             return r;
         }
         path.push(PathNode { len: p.len(), probes, bscripts: vec![] });
@@ -962,6 +974,23 @@ impl<'a> Explorer<'a> {
         (j << 11) | FILL
     }
 
+    #[inline]
+    fn note_reach(&mut self, vdepth: usize) {
+        if vdepth < self.reach.len() {
+            self.reach[vdepth] += self.cur_mass;
+        }
+    }
+
+    /// `child_res` with the path mass scaled by the edge mass `m`
+    #[inline]
+    fn child_res_m(&mut self, m: f64, p: &mut Vec<u64>, path: &mut Vec<PathNode>, cls: Class, node_len: usize, vdepth: usize) -> Res {
+        let save = self.cur_mass;
+        self.cur_mass = save * m;
+        let r = self.child_res(p, path, cls, node_len, vdepth);
+        self.cur_mass = save;
+        r
+    }
+
     /// choose the alphabet for the first unscripted request of node `p` and combine the children
     fn expand(&mut self, p: &mut Vec<u64>, path: &mut Vec<PathNode>, tag: u8, mid: bool, vdepth: usize) -> Res {
         let node_len = p.len();
@@ -969,16 +998,22 @@ impl<'a> Explorer<'a> {
         if tag != 0 && !mid {
             if let Some(mx) = self.macros {
                 let m = *self.cfg.macro_cells.get(vdepth).unwrap_or(self.cfg.macro_cells.last().unwrap());
-                let alpha = match self.alpha_cache.get(&(tag, m)) {
+                if m == 0 {
+                    self.cnt.pruned += 1;
+                    return Res { resid: 1.0, ..Default::default() };
+                }
+                let tb = self.cfg.macro_tail_bits.get(vdepth).cloned().unwrap_or(24);
+                let alpha = match self.alpha_cache.get(&(tag, m, tb)) {
                     Some(a) => a.clone(),
                     None => {
-                        let a = mx.lock().unwrap().alphabet(tag, m, 24);
-                        self.alpha_cache.insert((tag, m), a.clone());
+                        let a = mx.lock().unwrap().alphabet(tag, m, tb);
+                        self.alpha_cache.insert((tag, m, tb), a.clone());
                         a
                     }
                 };
                 if let Some(alpha) = alpha {
                     self.cnt.macro_nodes += 1;
+                    self.note_reach(vdepth);
                     let mut acc = Acc::new(self.grid.k(), true, self.cfg.collect_flat);
                     let mut turn = Turn::default();
                     for a in alpha.iter() {
@@ -989,7 +1024,7 @@ impl<'a> Explorer<'a> {
                             Class::Leaf { v, bad: false, .. } => turn.leaf(*v, a.mass + a.eps, &mut acc, self.grid),
                             _ => turn.reset(),
                         }
-                        let r = self.child_res(p, path, cls, node_len, vdepth + 1);
+                        let r = self.child_res_m(a.mass, p, path, cls, node_len, vdepth + 1);
                         acc.add(a.mass, &r, a.eps, &a.words);
                         p.truncate(node_len);
                     }
@@ -1295,14 +1330,17 @@ impl<'a> Explorer<'a> {
             if !ends_ok {
                 // cheap signatures agreed but the full classes do not: resolve this interval by a lattice
                 self.cnt.memo_rejects += 1;
+                let save = self.cur_mass;
+                self.cur_mass = save * mass;
                 let r2 = self.lattice_range(p, path, vdepth, start, end);
+                self.cur_mass = save;
                 acc.add(mass, &r2, 0.0, &[]);
                 continue;
             }
             if cls_rep.is_more() {
                 p.push(w);
                 self.last_wit = None;
-                let r = self.child_res(p, path, cls_rep, node_len, vdepth);
+                let r = self.child_res_m(mass, p, path, cls_rep, node_len, vdepth);
                 p.pop();
                 let (wit, lev1) = self.last_wit.take().filter(|w| w.1 == node_len + 1).map(|w| (w.2, w.3)).unwrap_or_default();
                 let mut all_ok = !wit.is_empty() && !lev1.is_empty();
@@ -1362,12 +1400,15 @@ impl<'a> Explorer<'a> {
                     return None;
                 } else {
                     // the word matters on this interval: lattice inside it
+                    let save = self.cur_mass;
+                    self.cur_mass = save * mass;
                     let r2 = self.lattice_range(p, path, vdepth, start, end);
+                    self.cur_mass = save;
                     acc.add(mass, &r2, 0.0, &[]);
                 }
             } else {
                 p.push(w);
-                let r = self.child_res(p, path, cls_rep, node_len, vdepth);
+                let r = self.child_res_m(mass, p, path, cls_rep, node_len, vdepth);
                 p.pop();
                 acc.add(mass, &r, 0.0, &[w]);
             }
@@ -1410,9 +1451,17 @@ impl<'a> Explorer<'a> {
         self.cnt.lattice_nodes += 1;
         let wbits = hi + 1;
         let nvals: u64 = 1u64 << wbits;
-        let a = (*self.cfg.lattice.get(vdepth).unwrap_or(self.cfg.lattice.last().unwrap()) as u64).min(nvals);
+        let a0 = *self.cfg.lattice.get(vdepth).unwrap_or(self.cfg.lattice.last().unwrap()) as u64;
+        if a0 == 0 {
+            self.cnt.pruned += 1;
+            return Res { resid: 1.0, ..Default::default() };
+        }
+        let a = a0.min(nvals);
         let topfill = 0xA5A5_A5A5_A5A5_A5A5u64 & !(nvals - 1);
         let mut acc = Acc::new(self.grid.k(), a < nvals, self.cfg.collect_flat);
+        if a < nvals {
+            self.note_reach(vdepth);
+        }
         for i in 0..a {
             let lo = (nvals as u128 * i as u128 / a as u128) as u64;
             let hi_ = (nvals as u128 * (i + 1) as u128 / a as u128) as u64;
@@ -1421,7 +1470,7 @@ impl<'a> Explorer<'a> {
             p.push(wv);
             self.note_child(p, node_len);
             let cls = self.classify(p, path);
-            let r = self.child_res(p, path, cls, node_len, vdepth + 1);
+            let r = self.child_res_m((hi_ - lo) as f64 / nvals as f64, p, path, cls, node_len, vdepth + 1);
             p.pop();
             acc.add((hi_ - lo) as f64 / nvals as f64, &r, 0.0, &[wv]);
         }
@@ -1436,6 +1485,11 @@ impl<'a> Explorer<'a> {
         let node_len = p.len();
         self.cnt.lattice_nodes += 1;
         let a = *self.cfg.lattice.get(vdepth).unwrap_or(self.cfg.lattice.last().unwrap()) as u64;
+        if a == 0 {
+            // level pruned by the size plan: its mass is reported as residual
+            self.cnt.pruned += 1;
+            return Res { resid: 1.0, ..Default::default() };
+        }
         let n = end - start;
         let a = a.min(n).max(1);
         // strata boundaries (in units of 53-bit words), with dyadic refinement of the first and last stratum when the range is the full word
@@ -1444,8 +1498,11 @@ impl<'a> Explorer<'a> {
         let w = n / a;
         if full && self.cfg.tail_bits > 0 && w >= 4 {
             // first stratum [0, w): {0}, then [2^k, 2^(k+1)) pieces
-            let mut lo_cells = vec![(0u64, 1u64)];
-            let mut b = 1u64;
+            // number of dyadic levels at this depth (all by default; size plans for deep trees use fewer below the top)
+            let tl = self.cfg.tail_levels.get(vdepth).cloned().unwrap_or(64);
+            let b0 = if tl >= 53 { 1 } else { (w >> tl).max(1) };
+            let mut lo_cells = vec![(0u64, b0)];
+            let mut b = b0;
             while b < w {
                 let hi = (b * 2).min(w);
                 // split each dyadic piece into tail_points sub-cells
@@ -1478,6 +1535,7 @@ impl<'a> Explorer<'a> {
             }
         }
         let mut acc = Acc::new(self.grid.k(), true, self.cfg.collect_flat);
+        self.note_reach(vdepth);
         let tot = n as f64;
         // comb detection: the variation bound assumes the conditional law is monotone between adjacent sample
         // points; a word along which accept/reject alternate repeatedly or leaf values change direction hides
@@ -1518,7 +1576,7 @@ impl<'a> Explorer<'a> {
                 Class::Leaf { v, bad: false, .. } => turn.leaf(*v, m, &mut acc, self.grid),
                 _ => turn.reset(),
             }
-            let r = self.child_res(p, path, cls, node_len, vdepth + 1);
+            let r = self.child_res_m(m, p, path, cls, node_len, vdepth + 1);
             p.pop();
             max_cell = max_cell.max(m);
             acc.add(m, &r, 0.0, &[wv]);
